@@ -101,7 +101,7 @@ def _gen_cr(rng, kind):
     order = list(names)
     if rng.random() < 0.5:
         rng.shuffle(order)              # the order in which the input file defines the variables
-    c.update(kind=kind, names=names, order=order, desc=rng.choice(['CAMx_V4.3 CLOUD_RAIN', 'CAMx_V4.2 CLOUD_RAIN', 'CAMx_V6.0 CLOUD_RAIN extra'[:24]]),
+    c.update(kind=kind, names=names, order=order, desc=rng.choice(['CAMx_V4.3 CLOUD_RAIN', 'CAMx_V4.2 CLOUD_RAIN', 'CAMx_V6.0 CLOUD_RAIN extra'[:24], 'CAMx CLOUD_RAIN     ', ' CAMx_V4.3 CLOUD_RAIN   ', 'CLOUD_RAIN  ']),
              vdtype=rng.choice(['f', 'f', 'd']))
     return c
 
